@@ -148,6 +148,9 @@ void register_harness(Harness* h);
 enum OpFlags { OPF_NONE = 0, OPF_LOCKFREE = 1 };
 void op_begin(int kind, int64_t a = 0, int64_t b = 0, int64_t c = 0, int flags = OPF_NONE);
 void op_end(int status, int64_t r0 = 0, int64_t r1 = 0);
+// inside a composite operation (one op_begin/op_end around many library calls): the next library call begins; the
+// solo-step rule for lock-free operations is applied per library call
+void op_progress();
 // record an auxiliary event in the history (no scheduling point), e.g. values found by a final drain
 void note(int kind, int64_t a = 0, int64_t b = 0, int64_t c = 0);
 int self();            // simulated thread id (0 = setup thread), -1 on the controller
